@@ -350,20 +350,21 @@ def run(ctx, rep):
         if ids:
             v = ids[0][3][0]
             # unwrap_or_default(prev_end_offset var) where every Some assignment of that var is Span::end(last segment of the chunk)
-            if call_is(v, r"Option::<T>::unwrap_or_default$|Option::<T>::unwrap_or$") and call_arg(v, 0)[0] == "var":
-                var = call_arg(v, 0)
-                assigns = []
-                inst0 = g.insts[var[1]]
-                for d in g.prog.defs(inst0.key).get(var[2], []):
-                    if d[0] == "s":
-                        st = inst0.body["blocks"][d[1]]["stmts"][d[2]]
-                        assigns.append(strip_ids(g.prov_rvalue(inst0, st["rv"], None)))
-                some = [a for a in assigns if a[0] == "agg" and a[2] == "Some"]
-                none = [a for a in assigns if a[0] == "agg" and a[2] == "None"]
-                ok = bool(some) and len(some) + len(none) == len(assigns) and all(
-                    contains(a, lambda x: call_is(x, r"Span::end$")) and
-                    contains(a, lambda x: call_is(x, r"Segment::<C>::new$")) for a in some)
-                why = "; ".join(expr_s(a)[:80] for a in some)
+            if call_is(v, r"Option::<T>::unwrap_or_default$|Option::<T>::unwrap_or$"):
+                # the un-stripped operand identifies the carried variable / struct field
+                raw = [a for a in event_args(g, n) if isinstance(a, tuple) and a and a[0] == "agg" and str(a[1]).endswith("ChunkId")]
+                rv_ = raw[0][3][0] if raw else None
+                src = call_arg(rv_, 0) if rv_ is not None and call_is(rv_, r"Option::<T>::unwrap_or_default$|Option::<T>::unwrap_or$") else None
+                assigns = carried_assignments(g, P.live, src) if src is not None else None
+                if assigns is None and src is not None:
+                    assigns = carried_assignments(g, P.live, strip_ids(src))
+                if assigns:
+                    some = [a for a in assigns if a[0] == "agg" and a[2] == "Some"]
+                    none = [a for a in assigns if a[0] == "agg" and a[2] == "None"]
+                    ok = bool(some) and len(some) + len(none) == len(assigns) and all(
+                        contains(a, lambda x: call_is(x, r"Span::end$")) and
+                        contains(a, lambda x: call_is(x, r"Segment::<C>::new$")) for a in some)
+                    why = "; ".join(expr_s(a)[:80] for a in some)
         if ok:
             rep.ok("R05.3", "new open chunk id", "= end offset of the last recovered chunk's last segment (or 0 when there is none)", where=g.where(n))
         else:
